@@ -512,6 +512,23 @@ func verifWheel(raw json.RawMessage) any {
 	return map[string]any{"new_ok": true, "obs": obs[:done], "hung": hung, "late": late}
 }
 
+// verifCalm waits (briefly, bounded) until the goroutine count has stopped moving: the cases take it as
+// their baseline, and goroutines of the previous case that are still on their way out would shift it.
+func verifCalm() {
+	n, same := runtime.NumGoroutine(), 0
+	for i := 0; i < 2000 && same < 20; i++ {
+		runtime.Gosched()
+		if i > 200 {
+			time.Sleep(20 * time.Microsecond)
+		}
+		if m := runtime.NumGoroutine(); m == n {
+			same++
+		} else {
+			n, same = m, 0
+		}
+	}
+}
+
 func TestVerifDriver(t *testing.T) {
 	logx.Disable() // recovered callback panics are logged with their stacks: not an observation
 	verifdrv.Run(t, func(raw json.RawMessage) any {
@@ -519,7 +536,8 @@ func TestVerifDriver(t *testing.T) {
 			Kind string `json:"kind"`
 		}
 		_ = json.Unmarshal(raw, &head)
-		if head.Kind != "safemap" && head.Kind != "jitter" {
+		verifCalm()
+		if head.Kind != "safemap" && head.Kind != "jitter" && head.Kind != "flight" {
 			if res, skip := verifSkip(); skip {
 				return res
 			}
@@ -529,6 +547,8 @@ func TestVerifDriver(t *testing.T) {
 			return verifCache(raw)
 		case "jitter":
 			return verifJitter(raw)
+		case "flight":
+			return verifFlight(raw)
 		case "safemap":
 			return verifSafeMap(raw)
 		default:
